@@ -59,7 +59,8 @@ def universe():
     ops = [("rows",) + r for r in ROWSELS]
     ops += [("cols", c) for c in COLSELS]
     ops += [("add",), ("mul", 1), ("mul", 2), ("concat",), ("copy",), ("t",),
-            ("setcol", "x", "double"), ("setcol", "y", "const"), ("newcol", "z"), ("setscalar",), ("setcell", "x"), ("peek",)]
+            ("setcol", "x", "double"), ("setcol", "y", "const"), ("newcol", "z"), ("setscalar",), ("setcell", "x"), ("peek",),
+            ("concat_sub",), ("evalexpr",)]
     return ops
 
 
@@ -113,6 +114,12 @@ class System(simple.SimpleSystem):
                     continue
             elif k == "concat":
                 if m.index != "name":
+                    continue
+            elif k == "concat_sub":
+                if m.index != "name" or "x" not in m.cols or n * 2 > 12:
+                    continue
+            elif k == "evalexpr":
+                if "x" not in m.cols or "y" not in m.cols or not all(isinstance(v, (int, float)) for v in m.cols["x"] + m.cols["y"]):
                     continue
             elif k in ("setcol", "setcell"):
                 if op[1] not in m.cols or (k == "setcell" and n == 0):
@@ -209,6 +216,17 @@ class System(simple.SimpleSystem):
             m.order = None          # column order of concatenate() is unspecified (set of common names)
             m.scalars = None        # the property does not claim scalars for concatenation
             m.index = "name"
+        elif k == "concat_sub":
+            # the operands do not have the same columns: only the common ones are kept; the FIRST operand has more
+            live["src"] = (t, snapshot(t))
+            derived = Table.concatenate([t, t.cols["x"]])
+            keep = [c for c in m.order if c in ("name", "x")]
+            m.cols = {c: m.cols[c] + m.cols[c] for c in keep}
+            m.order = None
+            m.scalars = None
+            m.index = "name"
+        elif k == "evalexpr":
+            live["expr_value"] = (list(t["x+2*y"]), [a + 2 * b for a, b in zip(m.cols["x"], m.cols["y"])])
         elif k == "copy":
             live["src"] = (t, snapshot(t))
             derived = t._copy()
@@ -258,25 +276,39 @@ class System(simple.SimpleSystem):
     def canon(self, live):
         """every attribute of the current table (data, column list, index and anything a change to the library may add, e.g. a
         cache), so that histories are never merged while such state differs"""
-        t = live["t"]
-        data = []
-        for c in sorted(t._data, key=str):
-            v = t._data[c]
-            if hasattr(v, "__len__") and not isinstance(v, str):
-                data.append((str(c), getattr(v, "dtype", None) is not None and v.dtype.kind, [cell(x) for x in v]))
-            else:
-                data.append((str(c), cell(v)))
-        extra = []
-        for k in sorted(t.__dict__):
-            if k in ("rows", "cols", "_data", "_col_names"):
-                continue
-            v = t.__dict__[k]
-            if isinstance(v, dict):
-                v = sorted((repr(x), repr(y)) for x, y in v.items())
-            elif isinstance(v, (set, frozenset)):
-                v = sorted(map(repr, v))
-            extra.append((k, repr(v)))
-        return simple.digest((list(t._col_names), data, extra))
+        def one(t):
+            data = []
+            for c in sorted(t._data, key=str):
+                v = t._data[c]
+                if hasattr(v, "__len__") and not isinstance(v, str):
+                    data.append((str(c), getattr(v, "dtype", None) is not None and v.dtype.kind, [cell(x) for x in v]))
+                else:
+                    data.append((str(c), cell(v)))
+            extra = []
+            for k in sorted(t.__dict__):
+                if k in ("rows", "cols", "_data", "_col_names"):
+                    continue
+                v = t.__dict__[k]
+                if isinstance(v, dict):
+                    v = sorted((repr(x), repr(y)) for x, y in v.items())
+                elif isinstance(v, (set, frozenset)):
+                    v = sorted(map(repr, v))
+                extra.append((k, repr(v)))
+            return (list(t._col_names), data, extra)
+        # the tables produced earlier in the history are part of the state too: the oracle re-checks them, they may share arrays
+        # with the current table, and a change to the library may keep state (a cache) in them
+        # ... and so is the ALIASING between them: which columns of which earlier table share memory with the current table's
+        import numpy as np
+        chain = [a[0] for a in live["anc"]] + [live["t"]]
+        alias = []
+        for i, ta in enumerate(chain):
+            for j in range(i + 1, len(chain)):
+                tb = chain[j]
+                for c in sorted(set(map(str, ta._data)) & set(map(str, tb._data))):
+                    va, vb = ta._data.get(c), tb._data.get(c)
+                    if isinstance(va, np.ndarray) and isinstance(vb, np.ndarray) and va.size and vb.size and np.shares_memory(va, vb):
+                        alias.append((i, j, c))
+        return simple.digest((one(live["t"]), [one(a[0]) for a in live["anc"]], alias))
 
     def op_str(self, op):
         k = op[0]
@@ -315,6 +347,10 @@ class System(simple.SimpleSystem):
             return f"t[{op[1]!r}] = np.arange(len(t)) * 1.0"
         if k == "setscalar":
             return "t['q2'] = 8.25"
+        if k == "concat_sub":
+            return "t = Table.concatenate([t, t.cols['x']])"
+        if k == "evalexpr":
+            return "t['x+2*y']   # column expression evaluated (a query)"
         if k == "peek":
             return "t.rows[0:1]; t.cols[<last column>]; t.rows[[]]   # derived tables looked at and dropped"
         return repr(op)
@@ -334,8 +370,19 @@ class System(simple.SimpleSystem):
         live["src"] = None
         # every table produced earlier in the history is still a well-formed table with the columns and length it had
         # (cell VALUES may change through shared arrays; that is not claimed by the property)
+        ev = live.pop("expr_value", None)
+        if ev is not None and [float(a) for a in ev[0]] != [float(b) for b in ev[1]]:
+            issues.append(self.issue(hist, op, f"t['x+2*y'] = {ev[0]!r}, element-wise value is {ev[1]!r}"))
+            return issues
         for gen, (anc, names, length) in enumerate(live["anc"]):
             pa = rect_problems(anc)
+            if not pa and "x" in anc._col_names and "y" in anc._col_names and getattr(anc["x"], "dtype", None) is not None \
+                    and anc["x"].dtype.kind in "fi" and anc["y"].dtype.kind in "fi":
+                # a column expression on an earlier table reflects that table's CURRENT columns (they may have been changed
+                # through a derived table that shares the arrays)
+                import numpy as _np
+                if not _np.array_equal(_np.asarray(anc["x+2*y"], dtype=float), _np.asarray(anc["x"], dtype=float) + 2 * _np.asarray(anc["y"], dtype=float)):
+                    pa = ["the column expression 'x+2*y' on it no longer equals x + 2*y of its current columns"]
             if not pa and list(anc._col_names) != names:
                 pa = [f"its column list changed from {names!r} to {list(anc._col_names)!r}"]
             if not pa and len(anc) != length:
@@ -494,10 +541,12 @@ def run_constructor(job):
 
 def plan(tier, seed):
     jobs = [{"name": "constructor", "mode": "pure", "hashseed": seed % 2 ** 32, "nproc": 1, "timeout": 1200, "args": {"what": "constructor"}}]
-    depth = 4 if tier == "quick" else 5
+    # (the state includes every table produced so far and the aliasing between them, so the search is deep rather than wide)
+    depths = {0: 3, 1: 3, 2: 4, 3: 3} if tier == "quick" else {0: 4, 1: 4, 2: 5, 3: 4}
     for n in (0, 1, 2, 3):
+        depth = depths[n]
         jobs.append({"name": f"bfs:rows{n}:d{depth}", "mode": "pure", "hashseed": seed % 2 ** 32,
-                     "nproc": 4 if tier == "quick" else 16, "timeout": 3300,
+                     "nproc": (10 if n == 2 else 2) if tier == "quick" else 16, "timeout": 3300,
                      "args": {"nrows": n, "depth": depth, "time_cap": 2400}})
     return {"level": LEVEL, "jobs": jobs,
             "assumptions": ["only the derivation itself must leave the source untouched; write isolation of later assignments through "
